@@ -7,7 +7,7 @@ Line protocol handler for the `doc` domain (C12).
 
 `<sys>` and `<document>` are trees in a blank-free prefix notation (every item is self-delimiting):
 
-    n | t | f | i<int>; | r<num>/<den>; | s<hex of ASCII>; | [ item* ] | { (key item)* }      key = s<hex>; | i<int>;
+    n | t | f | i<int>; | r<num>/<den>; | s<hex of ASCII>; | d<date ordinal>; | [ item* ] | { (key item)* }      key = s<hex>; | i<int>;
 
 `<sys>` = {pk, pp, groups:[{key, plural, roles:[{key, plural|n, max|n, sub:[…]}]}],
            vars:[{name, entity, type: "int"|"float"|"bool"|"str"|"date"|[enum names], unit, default, rule}]}
@@ -56,6 +56,9 @@ partial def readDoc : List Char → Option (Doc × List Char)
     let (h, r) ← takeUntil ';' cs
     let t ← unhex (String.ofList h)
     pure (.str (String.ofList t), r)
+  | 'd' :: cs => do
+    let (h, r) ← takeUntil ';' cs
+    pure (.date (← readInt h), r)
   | '[' :: cs => do
     let (xs, r) ← readItems cs
     pure (.arr xs, r)
